@@ -18,7 +18,7 @@ ASSUMPTIONS = [
     '(for those only NOJUMP/ONCE/HPRIO/STOP/NOREENTRY are asserted)',
     'a catch-all probe handler with priority 1000 marks the dispatch start of every event',
 ]
-REQUIRED = ['pass_with_mixed_priorities', 'fired_from_handler_during_pass', 'stop_called', 'nested_flush', 'equal_priority_ties',
+REQUIRED = ['stopping_handler_returns_a_generator', 'pass_with_mixed_priorities', 'fired_from_handler_during_pass', 'stop_called', 'nested_flush', 'equal_priority_ties',
             'negative_and_float_priorities', 'nested_flush_on_last_of_batch', 'multi_channel_event', 'stop_then_raise',
             'manager_with_many_events_behind_it', 'events_pending_on_a_component_that_joins_the_tree', 'event_object_fired_again_by_its_own_handler']
 REQUIRED_OBLIGATIONS = ['ORD', 'NOJUMP', 'NOREENTRY', 'HPRIO', 'STOP', 'ONCE']
@@ -165,6 +165,9 @@ def evaluate(case, w):
         elif k == 'PX':
             if entry[1] in stops:
                 marks.add('stop_then_raise')
+        elif k == 'RG':
+            if entry[1] in stops:
+                marks.add('stopping_handler_returns_a_generator')
         elif k == 'STOP':
             _, uid, hid = entry
             marks.add('stop_called')
@@ -228,6 +231,12 @@ def corpus():
         HD(1, 'a', 5, []), HD(2, 'a', 2.5, [['stop'], ['raise']]), HD(3, 'a', 1, []), HD(4, 'a', -0.5, []),
         HD(5, 'b', 2, [['raise']]), HD(6, 'b', 1, [['fire', EV('a', -1)], ['stop'], ['raise']]), HD(7, 'b', 0, [])],
         'passes': [[EV('a'), EV('b'), EV('a', 1)]]})
+    # what the stopping handler returns makes no difference: nothing, a value, a generator object (the rest of its work as a coroutine)
+    cs.append({'name': 'stop-then-return', 'handlers': [
+        HD(1, 'a', 7, []), HD(2, 'a', 2.5, [['stop'], ['retgen', 2]]), HD(3, 'a', 1, []), HD(4, 'a', 0, []),
+        HD(5, 'b', 1, [['stop'], ['ret', 'v']]), HD(6, 'b', 0, []), HD(7, 'b', -0.5, []),
+        HD(8, 'c', 0, [['retgen', 1]]), HD(9, 'c', -0.5, [['stop'], ['retgen', 0]]), HD(10, 'c', -3, []), HD(11, 'c', -3, [])],
+        'passes': [[EV('a'), EV('b'), EV('c')], [EV('c', 1), EV('a', -1)]]})
     # a handler stops the event and hands the same object on (fires it again): the stop holds for the delivery in progress
     cs.append({'name': 'stop-then-forward', 'handlers': [
         HD(1, 'a', 10, []), HD(2, 'a', 2.5, [['stop'], ['refire_same', None]]), HD(3, 'a', 0, []), HD(4, 'a', -3, []),
@@ -289,8 +298,12 @@ def gen_case(rng):
                             body.append(['refire_same', rng.choice([None, None, -1, 1.5])])
                     elif r < 0.82:
                         body.append(['flush'])
-                if rng.random() < 0.12:
+                r = rng.random()
+                if r < 0.12:
                     body.append(['raise'])   # a handler may stop the event and then fail: the stop still holds
+                elif r < 0.3:
+                    # ... or return something: a value, or a generator object it delegates the rest of its work to
+                    body.append(rng.choice([['ret', 'v'], ['retgen', rng.randint(0, 2)], ['retgen', 1]]))
                 handlers.append(HD(hid, nm, rng.choice(PRIOS), body))
     passes = []
     for _ in range(rng.randint(1, 4)):
